@@ -17,6 +17,7 @@ import (
 )
 
 type errTracker struct {
+	ubit     map[ssa.Value]uint64 // error value of a call -> U bit ("ran, and not found nil since")
 	nbit     map[ssa.Value]uint64 // error value of a call -> N bit
 	callOf   map[ssa.Instruction]ssa.Value
 	holder   map[*ssa.Phi][]uint64
@@ -24,7 +25,7 @@ type errTracker struct {
 }
 
 func newErrTracker(fn *ssa.Function, lo uint) *errTracker {
-	t := &errTracker{nbit: map[ssa.Value]uint64{}, callOf: map[ssa.Instruction]ssa.Value{}, holder: map[*ssa.Phi][]uint64{}}
+	t := &errTracker{ubit: map[ssa.Value]uint64{}, nbit: map[ssa.Value]uint64{}, callOf: map[ssa.Instruction]ssa.Value{}, holder: map[*ssa.Phi][]uint64{}}
 	bit := lo
 	eachInstr(fn, func(_ *ssa.BasicBlock, in ssa.Instruction) {
 		switch x := in.(type) {
@@ -33,13 +34,14 @@ func newErrTracker(fn *ssa.Function, lo uint) *errTracker {
 			if ev == nil {
 				return
 			}
-			if bit >= 60 {
+			if bit+1 >= 60 {
 				t.overflow = true
 				return
 			}
 			t.nbit[ev] = 1 << bit
+			t.ubit[ev] = 1 << (bit + 1)
 			t.callOf[in] = ev
-			bit++
+			bit += 2
 		case *ssa.Phi:
 			if !isErrorType(x.Type()) {
 				return
@@ -57,6 +59,39 @@ func newErrTracker(fn *ssa.Function, lo uint) *errTracker {
 		}
 	})
 	return t
+}
+
+// notFoundNil: the call whose error value is v ran on this path and its error has not been found nil
+// since (false also when the tracker overflowed: no knowledge).
+func (t *errTracker) notFoundNil(v ssa.Value, ev uint64) bool {
+	if t.overflow {
+		return true
+	}
+	b, ok := t.ubit[v]
+	return ok && ev&b != 0
+}
+
+func (t *errTracker) resolveVal(v ssa.Value, ev uint64, depth int) ssa.Value {
+	if depth > 6 || v == nil {
+		return nil
+	}
+	if _, ok := t.nbit[v]; ok {
+		return v
+	}
+	if ph, ok := v.(*ssa.Phi); ok {
+		if bits := t.holder[ph]; bits != nil {
+			for i, b := range bits {
+				if ev&b != 0 {
+					return t.resolveVal(ph.Edges[i], ev, depth+1)
+				}
+			}
+		}
+		return nil
+	}
+	if r := resolveLoad(v); r != v {
+		return t.resolveVal(r, ev, depth+1)
+	}
+	return nil
 }
 
 func (t *errTracker) resolve(v ssa.Value, ev uint64, depth int) (uint64, bool) {
@@ -118,7 +153,7 @@ func (t *errTracker) wrap(tr transferFn) transferFn {
 				out = []uint64{ev}
 			}
 			for i := range out {
-				out[i] &^= t.nbit[v]
+				out[i] = (out[i] &^ t.nbit[v]) | t.ubit[v]
 			}
 		}
 		return out
@@ -132,8 +167,12 @@ func (t *errTracker) edgeTr(pred *ssa.BasicBlock, succIdx int, ev uint64) uint64
 	succ := pred.Succs[succIdx]
 	if iff, ok := pred.Instrs[len(pred.Instrs)-1].(*ssa.If); ok && len(pred.Succs) == 2 && pred.Succs[0] != pred.Succs[1] {
 		if x, nilWhen, ok := errNilTest(iff.Cond); ok {
-			if b, ok := t.resolve(x, ev, 0); ok && (succIdx == 0) != nilWhen {
-				ev |= b
+			if rv := t.resolveVal(x, ev, 0); rv != nil {
+				if (succIdx == 0) != nilWhen {
+					ev |= t.nbit[rv]
+				} else {
+					ev &^= t.ubit[rv]
+				}
 			}
 		}
 	}
